@@ -70,7 +70,7 @@ c.finish(
         "bytes are < 256 (wf); predictor input consists of whole rows",
         "chain_rt: at most 8 filters (maxFilterChainLength, GetFilters rejects longer chains); each stage satisfies "
         "dec(MakeFilter(Info s))(enc s x) = x - proved for ASCIIHex, ASCII85, RunLength, LZW, PNG and TIFF predictors; "
-        "assumed for Flate (zlib) and CCITTFax outside the parameter classes of findings/C06.json",
+        "assumed for Flate (zlib) and CCITTFax with K != 0",
         "MakeFilter treats an empty parameter dictionary like a missing one (every parse function only looks keys up)",
         "Go ints are 64 bit (flate_ints / int_ok)",
     ],
